@@ -18,13 +18,13 @@ import (
 
 // varQ: a declaration that references path.sym.  The reference sits in one of several positions - an operand, a map key
 // type, a type argument, an asserted type, a union term, an element type, a parameter, an embedded field, a call argument,
-// one of a list - chosen by the symbol, so that the references of one file are spread over the constructs.
+// one of a list - chosen by symbol and path, so that the references of one file are spread over the constructs.
 func varQ(path, sym string) *Node {
 	q := &Node{K: "grp", Name: "qual", Items: []*Node{{K: "tok", T: "pkg", V: path}, {K: "tok", T: "id", V: sym}}}
 	pre := []*Node{kwn("var"), idn("_"), opn("=")}
 	h := 0
-	for _, c := range []byte(sym) {
-		h = h*31 + int(c)
+	for _, c := range []byte(sym + "\x00" + path) {
+		h = (h*31 + int(c)) % 1000003
 	}
 	switch h % 12 {
 	case 1:
